@@ -55,7 +55,9 @@ FaultKinds == {"undefined-symbol", "duplicate-label", "duplicate-constant", "dup
                \* structural directives inside a .repeat whose count is a forward reference (the body is compiled late)
                "end-in-lazy-repeat", "once-in-lazy-repeat", "include-in-lazy-repeat", "rad50-digits-overflow",
                \* characters outside an alphabet that Unicode case mapping folds into it (dotted capital I, Kelvin sign, dotless i, long s)
-               "caret-r-case-folding-character", "rad50-case-folding-character", "mnemonic-case-folding-character"}
+               "caret-r-case-folding-character", "rad50-case-folding-character", "mnemonic-case-folding-character",
+               \* a diagnostic with spans in two files (the earlier definition far down in a long included file)
+               "cross-file-duplicate-export", "cross-file-duplicate-constant", "cross-file-sob-forward"}
 
 (* ---- terminal classes (the renderer's table has one entry per name) ---- *)
 AtomClasses == {"oct", "dec", "d89", "cnum", "caretnum", "negnum", "bignum", "name", "namecolon", "local", "localcolon",
